@@ -95,6 +95,31 @@ fn routes_agree(mode: GameMode, pts: &[PathControlPoint], len: Option<f64>) -> R
         vec![(&bezier, Some(5000.0)), (&catmull, Some(1000.0))],
         vec![(&catmull2, Some(200.0)), (&[], None), (&catmull, Some(-1.0))],
     ];
+    // `Clone` of the pieces is part of the API: a CLONE of used buffers is as good as the buffers (seed C18-s: a hand-written Clone whose
+    // scratch vectors come out with unequal lengths), and `Curve::clone_from` onto a longer and onto a shorter curve yields the source
+    // (seed C19-s: a clone_from that never shrinks)
+    {
+        let mut warm = CurveBuffers::default();
+        let _ = BorrowedCurve::new(GameMode::Osu, &bezier, Some(5000.0), &mut warm);
+        let mut cl = warm.clone();
+        let c = Curve::new(mode, pts, len, &mut cl);
+        if !same_curve(want.path(), want.lengths(), &c) {
+            return Err("the curve computed on a CLONE of used buffers differs from the fresh owned curve".into());
+        }
+        let long = Curve::new(GameMode::Osu, &bezier, Some(5000.0), &mut CurveBuffers::default());
+        let short = Curve::new(GameMode::Osu, &dirty, None, &mut CurveBuffers::default());
+        for dst in [&long, &short] {
+            let mut slot = dst.clone();
+            slot.clone_from(&want);
+            if !same_curve(want.path(), want.lengths(), &slot) {
+                return Err(format!("Curve::clone_from onto a curve of {} points does not yield the source curve ({} points): got {} points / {} lengths",
+                    dst.path().len(), want.path().len(), slot.path().len(), slot.lengths().len()));
+            }
+        }
+        if !same_curve(want.path(), want.lengths(), &want.clone()) {
+            return Err("Curve::clone differs from the curve".into());
+        }
+    }
     for (hi, hist) in histories.iter().enumerate() {
         let mut bufs = CurveBuffers::default();
         for (hp, hl) in hist {
